@@ -389,7 +389,56 @@ def spelling_adopted(P, R, rule='C17.MPT.12'):
     R.floor(rule, 1)
 
 
+def retired_namesake_skipped(P, R, rule='C17.GRD.4'):
+    """A reload that re-spells a service retires the old entry and adds a new one; while a client still waits for the
+    old one both are in the table under names that differ in case only.  The class module's question "did <service>
+    accept this client" is answered from the first entry whose name matches without regard to case - so an entry that
+    is no longer configured may answer only for a client that has a bit in it; for any other client the search goes on
+    to the entry a fresh daemon would have (its only one).  In the exported lookup, every return reached under a name
+    match comes after a test that the entry is configured or that the client has a bit for its slot."""
+    n = 0
+    for f in P.unit_fns('modules/iauth_xquery.c'):
+        if f.static or not any(p_['t'].startswith('const char') for p_ in f.param_info):
+            continue
+        rets = []
+        for s in f.sites():
+            if s.ev['k'] != 'ret':
+                continue
+            gs = f.guards(s.bid)
+            if any(isinstance(g[0], dict) and g[0].get('k') == 'callref' and g[0].get('callee') in ('strcasecmp', 'strcmp', 'irccasecmp') and g[1] == '==' and const_of(g[2]) == 0
+                   and any(x.get('k') == 'mem' and x.get('field') == 'name' for a in g[0].get('args', ()) for x in walk(a)) for g in gs):
+                rets.append(s)
+        if not rets:
+            continue
+
+        def on_edge(st, e):
+            if st:
+                return st
+            r = e.rel()
+            if not r:
+                return st
+            l, op, rr = r
+            if isinstance(l, dict) and l.get('k') == 'mem' and l.get('field') == 'configured' and op == '!=' and const_of(rr) == 0:
+                return True
+            if isinstance(l, dict) and l.get('k') == 'bin' and l.get('op') == '&' and isinstance(l.get('l'), dict) and l['l'].get('k') == 'mem' and l['l'].get('field', '').endswith('_mask') and op == '!=' and const_of(rr) == 0:
+                return True
+            return st
+
+        def on_event(st, t):
+            # the next entry: what was learned about the previous one is void
+            if t.ev['k'] == 'store' and is_var(t.ev.get('lhs')) and any(x.get('k') == 'mem' and x.get('field') == 'vec' for x in walk(t.ev.get('rhs') or {})):
+                return False
+            return st
+        before, _, _, _ = f.forward(False, on_event, on_edge)
+        for s in rets:
+            sts = before.get(s.key, set())
+            n += 1
+            R.ob(rule, bool(sts) and all(sts), s, 'an entry whose name matches answers for the client only if it is configured or the client has a bit in its slot (a retired namesake the client never asked is passed over)', key='namesake:%s' % f.name)
+    R.floor(rule, 3, 'returns of the exported service lookup under a name match')
+
+
 def run(P, R, tier):
+    retired_namesake_skipped(P, R)
     H = wiring(P, R)
     coverage(P, R, H)
     no_registration_in_hooks(P, R, H)
